@@ -15,7 +15,7 @@ def gen_pattern(rng, base=None):
     if base is not None and rng.random() < 0.6:      # overlap with an earlier pattern
         p = list(base)
         for _ in range(rng.randrange(1, 4)):
-            p[rng.randrange(8)] = "*"
+            p[rng.randrange(len(p))] = "*"
         return "".join(p)
     p = [rng.choice(HEX) for _ in range(8)]
     if rng.random() < 0.5:
@@ -28,6 +28,9 @@ def gen_pattern(rng, base=None):
     s = "".join(p)
     if rng.random() < 0.15:
         s = s.lower()
+    if rng.random() < 0.06 and "*" not in s:
+        # not exactly eight characters: such an entry can never match a PTE (e.g. a typo that lost the leading zero)
+        s = rng.choice([s[1:] if s[0] == "0" else s[:7], "0" + s, "0" + s[1:7], s + "0"])
     return s
 
 
@@ -59,7 +62,7 @@ def pte_for(rng, table):
     if table and r < 0.7:
         pat = rng.choice(table)[0].upper()
         s = "".join(c if c != "*" else rng.choice(HEX) for c in pat)
-        v = int(s, 16)
+        v = int(s, 16) & 0xFFFFFFFF
         rr = rng.random()
         if rr < 0.3:
             v |= 0x00040000                    # reported flag on
@@ -175,8 +178,14 @@ def gen_trace(rng, strings, name=None, nentries=None, hostile=True):
 def gen_fields(rng, n=None):
     n = rng.choice([0, 1, 2, 5, 12, 38, 80, 120]) if n is None else n
     dup = rng.random() < 0.2
-    return [("hl_field_%d_%s" % (k if not (dup and k % 3 == 2) else k - 1, rng.choice(["a", "retries", "x_y"]) if not dup else "a"),
-             rng.choice([1, 2])) for k in range(n)]
+    odd = rng.random() < 0.15
+    out = [("hl_field_%d_%s" % (k if not (dup and k % 3 == 2) else k - 1, rng.choice(["a", "retries", "x_y"]) if not dup else "a"),
+            rng.choice([1, 2])) for k in range(n)]
+    if odd and out:
+        # characters that str.splitlines() (but not line-by-line file reading) treats as line ends, inside a name
+        k = rng.randrange(len(out))
+        out[k] = (out[k][0][:6] + rng.choice(ODD_SEPARATORS) + out[k][0][6:], out[k][1])
+    return out
 
 
 def record_len(fields):
@@ -205,3 +214,38 @@ def gen_dump(rng, table, strings):
     if rng.random() < 0.1 and names:
         ilog = b""                                                               # header at offset 0
     return ilog + bufs
+
+
+ODD_SEPARATORS = ["\x0b", "\x0c", "\x1c", "\x1d", "\x1e", "\x85", "\u2028", "\u2029"]
+
+
+def rewrite_same_stat(path, mutate_text):
+    """rewrite a text file with content of the SAME byte length and restore its time stamps (what `cp -p`, rsync -t or an
+    archive extraction of another build can leave): anything remembered for the path must not survive this"""
+    import os
+    st = os.stat(path)
+    with open(path, encoding="utf-8") as f:
+        old = f.read()
+    new = mutate_text(old)
+    if new is None or len(new.encode("utf-8")) != len(old.encode("utf-8")) or new == old:
+        return False
+    with open(path, "w", encoding="utf-8") as f:
+        f.write(new)
+    os.utime(path, ns=(st.st_atime_ns, st.st_mtime_ns))
+    return True
+
+
+def view_of(rng, d: bytes):
+    """the bytes as the decoders get them from a PEL: often a memoryview WINDOW onto a larger buffer"""
+    r = rng.random()
+    if r < 0.35:
+        pre = bytes(rng.randrange(256) for _ in range(rng.randrange(1, 40)))
+        post = bytes(rng.randrange(256) for _ in range(rng.randrange(0, 40)))
+        if rng.random() < 0.5:      # the surrounding bytes contain perfectly good headers / entries of their own
+            pre += im.HDR_START + b"FANS" + bytes(24)
+            post = im.HDR_START + b"POWR" + bytes(24) + post
+        buf = pre + d + post
+        return memoryview(buf)[len(pre):len(pre) + len(d)]
+    if r < 0.7:
+        return memoryview(d)
+    return d
